@@ -159,6 +159,9 @@ def make_module(vfs):
             self._writable()
             if not isinstance(obj, symrec.SRec):
                 raise Unsupported("Write of %r" % (type(obj),))
+            if self.delim is not None and any(obj.dtype.fields[nm][0].base.byteorder == ">" for nm in obj.dtype.names):
+                # the text writer formats the raw bytes of each number as a native value
+                raise ContractViolation("a table with non-native byte order is handed to the C++ text writer, which formats the raw bytes as native numbers")
             if not obj.flags.c_contiguous:
                 # Records::Write takes PyArray_DATA and copies nrows * rowsize bytes from it: its contract
                 # is a C-contiguous array (decided on the C++ side in props/recxx.h_write_binary)
